@@ -40,14 +40,13 @@ type c41FirstRound struct {
 }
 
 // runFirstUseRounds runs spec.Rep rounds with G persistent workers. Per round
-// the workers are woken by a channel close, report ready, and are then
-// released together by one atomic store (tighter than the staggered channel
-// wake-ups). Ordering: the workers' work of round r happens-before the
+// the workers are woken by a channel close, report ready, and are released
+// together by one atomic store of the last one to arrive (tighter than the
+// staggered channel wake-ups). Ordering: the workers' work of round r happens-before the
 // doneCh receive, which happens-before ResetIDGenerator and the release of
 // round r+1.
 func runFirstUseRounds(spec c41FirstSpec, procs int, judge func(r int, rd *c41FirstRound, global timing.IDGenerator) bool) {
 	var goFlag, ready, done, clk atomic.Int64
-	yield := procs <= spec.G // more spinners than Ps: be polite
 	rounds := make([]c41FirstRound, spec.Rep)
 	startCh := make([]chan struct{}, spec.Rep)
 	for r := range rounds {
@@ -55,7 +54,6 @@ func runFirstUseRounds(spec c41FirstSpec, procs int, judge func(r int, rd *c41Fi
 			t0: make([]int64, spec.G), t1: make([]int64, spec.G)}
 		startCh[r] = make(chan struct{})
 	}
-	readyCh := make(chan struct{}, 1)
 	doneCh := make(chan struct{}, 1)
 	var wg sync.WaitGroup
 	for g := 0; g < spec.G; g++ {
@@ -66,14 +64,14 @@ func runFirstUseRounds(spec c41FirstSpec, procs int, judge func(r int, rd *c41Fi
 				if _, ok := <-startCh[r]; ok {
 					return // a value (not a close) means: stop
 				}
+				// short spin: the last worker to arrive releases everybody with one atomic store
 				if ready.Add(1) == int64((r+1)*spec.G) {
-					readyCh <- struct{}{}
+					goFlag.Store(int64(r + 1))
 				}
-				// short spin: main releases everybody with one atomic store
 				for goFlag.Load() <= int64(r) {
-					if yield {
-						runtime.Gosched()
-					}
+					// always yield: a pure spin costs milliseconds per round when the
+					// machine is oversubscribed (measured), for no better overlap per second
+					runtime.Gosched()
 				}
 				rd := &rounds[r]
 				spin(spec.Spin[g])
@@ -98,8 +96,6 @@ func runFirstUseRounds(spec c41FirstSpec, procs int, judge func(r int, rd *c41Fi
 	for r := 0; r < spec.Rep; r++ {
 		timing.ResetIDGenerator()
 		close(startCh[r])
-		<-readyCh
-		goFlag.Store(int64(r + 1))
 		<-doneCh
 		if !judge(r, &rounds[r], timing.GetIDGenerator()) {
 			if r+1 < spec.Rep {
@@ -147,13 +143,6 @@ func TestC41FirstUse(t *testing.T) {
 			for si, sp := range c.Specs {
 				runFirstUseRounds(sp, c.Procs, func(r int, rd *c41FirstRound, global timing.IDGenerator) bool {
 					rounds++
-					for g, gen := range rd.gens {
-						if gen != rd.gens[0] || gen != global {
-							failSig = "first-use:distinct-generator-instances"
-							failMsg = sprintf("shape %d round %d (G=%d): goroutine %d got a generator instance different from goroutine 0's / the process-wide one", si, r, sp.G, g)
-							return false
-						}
-					}
 					var all []uint64
 					for _, ids := range rd.ids {
 						all = append(all, ids...)
@@ -172,6 +161,13 @@ func TestC41FirstUse(t *testing.T) {
 						case want[i] != id:
 							failSig = "first-use:not-the-fresh-sequence"
 							failMsg = sprintf("shape %d round %d: the %d IDs handed out are not the first %d IDs of a fresh generator (sorted position %d: got %d, want %d)", si, r, len(all), len(all), i, id, want[i])
+							return false
+						}
+					}
+					for g, gen := range rd.gens {
+						if gen != rd.gens[0] || gen != global {
+							failSig = "first-use:distinct-generator-instances"
+							failMsg = sprintf("shape %d round %d (G=%d): goroutine %d got a generator instance different from goroutine 0's / the process-wide one", si, r, sp.G, g)
 							return false
 						}
 					}
